@@ -25,10 +25,13 @@ theorem N3_DTAU_DDF__DTAU_DF (hc : c * c = 2) (h2 : (2:K) ≠ 0)
     (D : Nat → Nat → K) (F0 Δ : M3 K) (L : M3 K) (s : Nat → K)  :
     upper (lamTau (Δ * F0) (M3.ofMandel c [s 0, s 1, s 2, s 3, s 4, s 5]) L (M3.ofMandel c (act (Gen.N3_DTAU_DDF__DTAU_DF_r c c3 fn D (tensv F0) (tensv (Δ * F0)) s) (M3.tens3 (L * Δ)))))
       = upper (lamTau (Δ * F0) (M3.ofMandel c [s 0, s 1, s 2, s 3, s 4, s 5]) L (M3.ofMandel c (act (rowsOf D i6 i9) (M3.tens3 (L * (Δ * F0)))))) := by
-  have hc0 : c ≠ 0 := c_ne_zero hc h2
-  obtain ⟨d00,d01,d02,d10,d11,d12,d20,d21,d22⟩ := Δ
-  obtain ⟨g00,g01,g02,g10,g11,g12,g20,g21,g22⟩ := F0
-  obtain ⟨l00,l01,l02,l10,l11,l12,l20,l21,l22⟩ := L
-  c23_rat0 hc
+  have key : (act (Gen.N3_DTAU_DDF__DTAU_DF_r c c3 fn D (tensv F0) (tensv (Δ * F0)) s) (M3.tens3 (L * Δ)))
+      = (act (rowsOf D i6 i9) (M3.tens3 (L * (Δ * F0)))) := by
+    have hc0 : c ≠ 0 := c_ne_zero hc h2
+    obtain ⟨d00,d01,d02,d10,d11,d12,d20,d21,d22⟩ := Δ
+    obtain ⟨g00,g01,g02,g10,g11,g12,g20,g21,g22⟩ := F0
+    obtain ⟨l00,l01,l02,l10,l11,l12,l20,l21,l22⟩ := L
+    c23_rat0 hc
+  rw [key]
 
 end TfelVerif.C23.PropsN3_DTAU_DDF__DTAU_DF
